@@ -11,6 +11,7 @@ fn main() {
         "c02" => checks::c02::main(&a),
         "c04" => checks::c04::main(&a),
         "c08" => checks::c08::main(&a),
+        "c20" => checks::c20::main(&a),
         other => report::machinery(&format!("unknown check {other}")),
     }
 }
